@@ -4,6 +4,7 @@ package main
 import (
 	"flag"
 	"fmt"
+	"go/types"
 	"os"
 	"path/filepath"
 	"sort"
@@ -51,6 +52,21 @@ func main() {
 		res, err = passK(*repo, cfg, *only)
 	case "passG":
 		res, err = passG(*repo, cfg, *only, *corpus, *scratch)
+	case "sites":
+		lr, err := vc.Load(*repo, []string{"verif"}, "go.uber.org/cff/...")
+		if err != nil {
+			fatal(err)
+		}
+		x := vc.NewExec(vc.NewCtx(), lr.Prog, vc.NewSink("X"))
+		for name, fn := range lr.Funcs {
+			if strings.HasSuffix(name, "::"+*only) {
+				fmt.Println(name)
+				for _, k := range x.SiteKeys(fn) {
+					fmt.Println("  ", k)
+				}
+			}
+		}
+		return
 	default:
 		fatal(fmt.Errorf("unknown command %s", cmd))
 	}
@@ -191,6 +207,106 @@ func configureS(x *vc.Exec) {
 }
 
 func passK(repo string, cfg *vc.SolverConfig, only string) (*vc.PassResult, error) {
-	return nil, fmt.Errorf("passK not built yet")
+	start := time.Now()
+	lr, err := vc.Load(repo, []string{"verif"}, "go.uber.org/cff/internal", "go.uber.org/cff/cmd/cff")
+	if err != nil {
+		return nil, err
+	}
+	ctx := vc.NewCtx()
+	sink := vc.NewSink("K")
+	res := &vc.PassResult{Pass: "K", Ungenerated: map[string]string{}, Extra: map[string]any{}}
+	var lastX *vc.Exec
+	var frames []vc.FrameDecl
+	totalPaths := 0
+	for _, pc := range []struct {
+		pkg, file string
+		strs      bool
+	}{
+		{"go.uber.org/cff/internal", filepath.Join(repo, "internal", "contracts_verif.go"), false},
+		{"go.uber.org/cff/cmd/cff", filepath.Join(repo, "cmd", "cff", "contracts_verif.go"), true},
+	} {
+		cf, err := contractFile(pc.file)
+		if err != nil {
+			if pc.pkg != "go.uber.org/cff/internal" {
+				continue
+			}
+			return nil, err
+		}
+		frames = append(frames, cf.Frames...)
+		vc.StringTheory = pc.strs
+		x := vc.NewExec(ctx, lr.Prog, sink)
+		x.RegisterStdModels()
+		x.RegisterMapSpecFuncs()
+		configureK(x)
+		all := vc.BindSpecs(x, lr, pc.pkg, cf, res)
+		filterBound(all, only)
+		vc.VerifyAll(x, all, res)
+		totalPaths += x.Paths()
+		lastX = x
+	}
+	vc.StringTheory = false
+	kStructural(lastX, lr, repo, res, frames)
+	vc.Finish(lastX, cfg, res, start)
+	res.Paths = totalPaths
+	return res, nil
+}
+
+// configureK: compiler functions: every call without a contract or an
+// explicit "inline" marker is opaque and assumed not to panic (its own
+// no-panic obligations are generated where it is under contract).
+func configureK(x *vc.Exec) {
+	x.Classify = func(s *vc.State, c *vc.CallCtx, callee vc.Value) vc.CallMode {
+		if fv, ok := callee.(*vc.FuncVal); ok && !c.Common.IsInvoke() {
+			if sp, ok := x.Specs[fv.Fn]; ok && sp.Inline {
+				return vc.ModeInline
+			}
+			if fv.Fn.Parent() != nil {
+				return vc.ModeInline // function literals of the function under contract
+			}
+		}
+		return vc.ModeOpaque
+	}
+	x.PureFunc = func(name string) bool {
+		for _, p := range []string{"go/types.", "go/ast.", "go/token.", "go/constant.", "invoke go/types.", "invoke go/ast.", "invoke go/constant."} {
+			if strings.Contains(name, p) {
+				return true
+			}
+		}
+		// position accessors of AST-like nodes
+		if strings.HasPrefix(name, "invoke ") && (strings.HasSuffix(name, ".Pos") || strings.HasSuffix(name, ".End")) {
+			return true
+		}
+		return false
+	}
+	libType := func(t types.Type) bool {
+		ts := t.String()
+		return strings.Contains(ts, "go/types.") || strings.Contains(ts, "go/ast.") || strings.Contains(ts, "go/constant.")
+	}
+	x.NoTypedNil = libType
+	x.MapValuesNonNil = libType
+	x.NonNilResult = func(name string) bool {
+		for _, n := range []string{"(*go/types.Tuple).At", "(*go/types.Named).Obj", "(*go/types.Var).Type", "(*go/types.Pointer).Elem",
+			"(*go/types.Slice).Elem", "(*go/types.Map).Key", "(*go/types.Map).Elem", "invoke go/types.Type.Underlying", "(*go/types.Func).Type", "fmt.Errorf", "errors.New", "(*go/token.FileSet).File"} {
+			if name == n {
+				return true
+			}
+		}
+		return false
+	}
+	x.NilReceiverPanics = func(fn *ssa.Function) bool {
+		// go/types and go/ast accessor methods read fields of their receiver
+		if fn.Pkg == nil {
+			return false
+		}
+		switch fn.Pkg.Pkg.Path() {
+		case "go/types", "go/ast", "go/token":
+			_, isPtr := fn.Signature.Recv().Type().(*types.Pointer)
+			if strings.Contains(fn.String(), "types.Tuple") {
+				return false // Len and At are nil-safe (At is covered by its index precondition)
+			}
+			return isPtr && fn.Name() != "String"
+		}
+		return false
+	}
 }
 
